@@ -1,11 +1,11 @@
 (* C14: the RBAC rule set produced by [translate] against the precedence decision.
 
    Main results
-     equiv_partial      eval_rbac (translate ..) = intention_allows ..   under source_monotone (names are arbitrary: they are quoted)
-     nondefault_kept    without source_monotone: whenever precedence yields the NON-default action, so does the RBAC
-     superset_witness   the full statement fails: `* -> web` deny above `api -> *` allow
-     regex_regression   `web.v1` no longer admits `webxv1` (repaired in /repo d976793)
-     same_destination_monotone   source_monotone holds when all intentions name one destination *)
+     equiv                 eval_rbac (translate ..) = intention_allows ..  for the translator of /repo HEAD (with
+                           removeShadowedSourceIntentions, 214d73a): no hypothesis on the precedence order
+     inverted_header_witness   the full statement still fails for an inverted header value matcher and a request without the header
+     equiv_before_repair, nondefault_kept_before_repair, superset_witness   the translator before 214d73a (regression)
+     regex_regression      `web.v1` no longer admits `webxv1` (d976793) *)
 From Coq Require Import Btauto Sorted.
 From Verif Require Import Base.Prelude.
 From Verif Require Import RBAC.Model.
@@ -1072,28 +1072,29 @@ Section Main.
     - exfalso. rewrite (Hmono j i _ _ Hj Hi Ry Rx T) in Hless. discriminate.
   Qed.
 
-  Theorem equiv_partial :
+  (* the translator as it was before 214d73a needed source_monotone *)
+  Theorem equiv_before_repair :
     source_monotone cfg ixns ->
-    eval_rbac re (translate cfg ixns d http) c q = intention_allows re cfg ixns d http c q.
+    eval_rbac re (translate_before_214d73a cfg ixns d http) c q = intention_allows re cfg ixns d http c q.
   Proof.
-    intros Hmono. unfold translate. rewrite (rbac_as_contrib false), reference_as_find.
+    intros Hmono. unfold translate_before_214d73a. rewrite (rbac_as_contrib false), reference_as_find.
     rewrite (core_main re cfg xf c q d L [] L_fresh); [apply xor_back| |apply L_laminar; exact Hmono].
     intros s [].
   Qed.
 
   (* without source_monotone the error is one-sided *)
-  Theorem nondefault_kept :
+  Theorem nondefault_kept_before_repair :
     intention_allows re cfg ixns d http c q = negb d ->
-    eval_rbac re (translate cfg ixns d http) c q = negb d.
+    eval_rbac re (translate_before_214d73a cfg ixns d http) c q = negb d.
   Proof.
-    unfold translate. rewrite (rbac_as_contrib false), reference_as_find. intros H.
+    unfold translate_before_214d73a. rewrite (rbac_as_contrib false), reference_as_find. intros H.
     rewrite (core_lower re cfg xf c q d L [] L_fresh); [destruct d; reflexivity|intros s []|].
     rewrite <- xor_back in H. fold m. destruct (find _ L) as [r|].
     - destruct (vnd re q d r); [reflexivity|]. rewrite xorb_false_r in H. destruct d; discriminate.
     - rewrite xorb_false_r in H. destruct d; discriminate.
   Qed.
 
-  (* the repaired translator needs no hypothesis on the precedence order *)
+  (* the translator of /repo HEAD needs no hypothesis on the precedence order *)
   Lemma repaired_laminar : laminar cfg xf c (drop_shadowed [] L).
   Proof.
     unfold laminar.
@@ -1114,10 +1115,10 @@ Section Main.
     - rewrite (Hu y Hy) in T. discriminate.
   Qed.
 
-  Theorem equiv_repaired :
-    eval_rbac re (translate_repaired cfg ixns d http) c q = intention_allows re cfg ixns d http c q.
+  Theorem equiv :
+    eval_rbac re (translate cfg ixns d http) c q = intention_allows re cfg ixns d http c q.
   Proof.
-    unfold translate_repaired. rewrite (rbac_as_contrib true), reference_as_find.
+    unfold translate. rewrite (rbac_as_contrib true), reference_as_find.
     rewrite (core_main re cfg xf c q d (drop_shadowed [] L) [] (drop_shadowed_Forall _ [] L L_fresh));
       [|intros s []|apply repaired_laminar].
     rewrite xor_back. fold m.
@@ -1193,7 +1194,7 @@ Definition w_req : request := Req "/" [(":method", "GET")].
 Definition w_superset : list intention := [w_ixn "*" "web" false; w_ixn "api" "*" true].
 
 Lemma superset_witness re :
-  eval_rbac re (translate w_cfg w_superset false false) (w_conn "api") w_req = true
+  eval_rbac re (translate_before_214d73a w_cfg w_superset false false) (w_conn "api") w_req = true
   /\ intention_allows re w_cfg w_superset false false (w_conn "api") w_req = false.
 Proof. split; vm_compute; reflexivity. Qed.
 
@@ -1201,7 +1202,7 @@ Proof. split; vm_compute; reflexivity. Qed.
 Definition w_superset' : list intention := [w_ixn "*" "web" true; w_ixn "api" "*" false].
 
 Lemma superset_witness_default_allow re :
-  eval_rbac re (translate w_cfg w_superset' true false) (w_conn "api") w_req = false
+  eval_rbac re (translate_before_214d73a w_cfg w_superset' true false) (w_conn "api") w_req = false
   /\ intention_allows re w_cfg w_superset' true false (w_conn "api") w_req = true.
 Proof. split; vm_compute; reflexivity. Qed.
 
@@ -1320,10 +1321,10 @@ Proof.
   intros i [<-|[<-|[<-|[<-|[]]]]]; cbn [i_perms]; repeat constructor.
 Qed.
 
-(* the proposed repair removes the superset defect on its witnesses *)
+(* 214d73a removes the superset defect on its witnesses *)
 Lemma superset_repaired re :
-  eval_rbac re (translate_repaired w_cfg w_superset false false) (w_conn "api") w_req = false
-  /\ eval_rbac re (translate_repaired w_cfg w_superset' true false) (w_conn "api") w_req = true.
+  eval_rbac re (translate w_cfg w_superset false false) (w_conn "api") w_req = false
+  /\ eval_rbac re (translate w_cfg w_superset' true false) (w_conn "api") w_req = true.
 Proof. split; vm_compute; reflexivity. Qed.
 
 (* (new finding) an inverted value matcher and a request that LACKS the header: consul's
